@@ -67,13 +67,13 @@ def run(chk):
     chk.mc('MC_Dyn', 'MC_Dyn_fail.cfg')      # a decorated call that creates nodes and then raises, at every trigger position
     tmp = os.path.join(chk.dir, 'tmp')
     n = tlcrun.NCPU
-    per = 6 if q else 300
+    per = chk.th(6, 300)
     tasks = [dict(shard=chk.shard('inj_%d' % i), first_tid=i * per,
                   ntraces=per, seed=chk.seed, nvars_choices=[2, 3, 4, 5],
-                  steps=80 if q else 150, tmpdir=tmp, dyn=True)
+                  steps=chk.th(80, 150), tmpdir=tmp, dyn=True)
              for i in range(n)]
     sh, _ = chk.generate(inject_task, tasks)
-    fl = [dict(shard=chk.shard('fl_c17_%d' % i), first_tid=17800000 + i * 100, ntraces=6 if q else 120,
+    fl = [dict(shard=chk.shard('fl_c17_%d' % i), first_tid=17800000 + i * 100, ntraces=chk.th(6, 120),
                seed=chk.seed, tmpdir=os.path.join(chk.dir, 'tmp')) for i in range(4)]
     fsh, _ = chk.generate(failed_load_task, fl)
     chk.own_clauses = tuple(chk.own_clauses) + ('decl.views',)
@@ -83,11 +83,11 @@ def run(chk):
     from harness.drivers import xfer
     chk.own_clauses = tuple(chk.own_clauses) + ('io.rejected', 'io.receiver_ref', 'io.receiver_canonical')
     xt = [dict(shard=chk.shard('x_c17_%d' % i), tid0=17000000 + i * 100,
-               seed=chk.seed * 19 + i, ntraces=4 if q else 100, tmpdir=tmp) for i in range(8)]
+               seed=chk.seed * 19 + i, ntraces=chk.th(4, 100), tmpdir=tmp) for i in range(8)]
     xs, _ = chk.generate(xfer.c12_task, xt)
     # copy_vars into managers it must refuse: nothing may have been declared when it raises
     ct = [dict(shard=chk.shard('cv_c17_%d' % i), tid=17500000 + i * 1000, seed=chk.seed * 23 + i,
-               ntraces=6 if q else 200) for i in range(4)]
+               ntraces=chk.th(6, 200)) for i in range(4)]
     cs, _ = chk.generate(xfer.copy_vars_conflict_task, ct)
     chk.validate('TraceXfer', 'TraceXfer.cfg', xs + cs)
 
